@@ -125,7 +125,7 @@ GUARDS = [
      ["super().set_outputs(*L_args)"], "function outputs differ from the declared ones"),
     ("hugr.ops._CallOrLoad.__init__", "NoConcreteFunc",
      [("missing instantiation", [[("instantiation is not None", False)]]),
-      ("argument count mismatch", [[("len(signature.params) == len(type_args)", False)], [("len(type_args) == len(signature.params)", False)]])],
+      ("argument count mismatch", [[("len(signature.params) == len(ANY_)", False)], [("len(ANY_) == len(signature.params)", False)]])],
      ["self.instantiation = instantiation"], "polymorphic function without matching instantiation / argument count"),
     ("hugr.build.dfg.DfBase._get_dataflow_type", "ValueError",
      [("port has no dataflow type", [[("self.hugr.port_type(ANY_) is not None", False)]])], [], "a non-dataflow port used as a wire"),
